@@ -609,6 +609,11 @@ class Dendrogram(object):
                 # Remove this structure
                 del keep_structures[m.idx]
 
+        # The tree has changed, so cached quantities (level, ancestor,
+        # descendants, ...) of the remaining structures cannot be trusted
+        for structure in keep_structures.values():
+            structure._reset_cache()
+
         # Create trunk from objects with no ancestors
         _make_trunk(self, keep_structures, is_independent)
 
